@@ -172,5 +172,5 @@ Theorem fcpq_linearizable_partA chk fuel mask npass ths c :
 Proof.
   intros Hok Hr Hl. apply lp_valid_linearizable.
   exact (proj2 (fc_partA (S := PQueue) res_dec res_dec_enc s_okop_ge2 pq_capply_spec (pinit := (None : itprev)) (pheld := held_of) eq_refl
-                         (no_visit_sound PQueue s_okop s_dec) Hok Hr) Hl).
+                         (@no_visit_sound PQueue s_okop s_dec) Hok Hr) Hl).
 Qed.
